@@ -798,6 +798,11 @@ def regenerate_routes() -> dict:
     return {"defs": info, "rewritten": changed}
 
 
+# generated module name -> harness module with a `regenerate()` (statement-level translators); dependencies between them
+PROG_MODULES = {"RingProg": "progtx", "RecordProg": "progtx_record", "HookProg": "progtx_hooks"}
+PROG_USES = {"RecordProg": ["RingProg"]}
+
+
 def regenerate(mods: list[str] | None = None) -> dict:
     """Regenerates ALL modules of translate_spec (the dispatcher imports every one); returns the
     info of the requested ones.  A module that cannot be translated breaks the tie only of the checks
@@ -812,23 +817,24 @@ def regenerate(mods: list[str] | None = None) -> dict:
             failed[m] = e
     emit_dispatch(out)
     man = {m: {f: d["source_sha"] for f, d in o["functions"].items()} for m, o in out.items()}
-    routes = prog = None
+    routes = None
     try:
         routes = regenerate_routes()
         man["Routes"] = {k: v["sha"] for k, v in routes["defs"].items()}
     except TranslateError as e:
         failed["Routes"] = e
-    try:
-        import progtx
-        prog = progtx.regenerate()      # whole method bodies of RecordTensor (statement-level translator)
-        man["RingProg"] = prog["functions"]
-    except TranslateError as e:
-        failed["RingProg"] = e
+    progs = {}
+    for pname, pmod in PROG_MODULES.items():      # whole method bodies (statement-level translator, progtx*.py)
+        try:
+            progs[pname] = __import__(pmod).regenerate()
+            man[pname] = progs[pname]["functions"]
+        except TranslateError as e:
+            failed[pname] = e
     (GEN / "MANIFEST.json").write_text(json.dumps(man, indent=1))
-    wanted = list(mods) if mods else list(translate_spec.SPEC) + ["Routes", "RingProg"]
+    wanted = list(mods) if mods else list(translate_spec.SPEC) + ["Routes"] + list(PROG_MODULES)
     k = 0
     while k < len(wanted):                     # closure under `uses`
-        for u in translate_spec.SPEC.get(wanted[k], {}).get("uses", []):
+        for u in translate_spec.SPEC.get(wanted[k], {}).get("uses", []) + PROG_USES.get(wanted[k], []):
             if u not in wanted:
                 wanted.append(u)
         k += 1
@@ -838,9 +844,10 @@ def regenerate(mods: list[str] | None = None) -> dict:
     extra = {}
     if mods and "Routes" in mods:
         extra["Routes"] = {"functions": man["Routes"], "rewritten": routes["rewritten"]}
-    if mods and "RingProg" in mods:
-        extra["RingProg"] = prog
-    sel = [m for m in (mods or out) if m not in ("Routes", "RingProg")]
+    for pname in PROG_MODULES:
+        if mods and pname in mods:
+            extra[pname] = progs[pname]
+    sel = [m for m in (mods or out) if m != "Routes" and m not in PROG_MODULES]
     return extra | {m: {"functions": {f: d["source_sha"] for f, d in out[m]["functions"].items()}, "rewritten": out[m]["rewritten"]}
                     for m in sel}
 
